@@ -206,6 +206,10 @@ def base_streams():
         out.append(("hq_minimal_two_sequences", out[0][1] + out[1][1]))
         out += tiny_streams()
         out += mixed_parameter_streams(rnd)
+        # two sequences with EQUAL video parameters but different picture coding mode (frames / fields), both orders
+        tiny = dict(out)
+        out.append(("tiny_frames_then_fields", tiny["tiny_HQ_v2_pic_frames"] + tiny["tiny_HQ_v2_pic_fields"]))
+        out.append(("tiny_fields_then_frames_then_fields", tiny["tiny_LD_v1_pic_fields"] + tiny["tiny_LD_v1_pic_frames"] + tiny["tiny_LD_v1_pic_fields"]))
         out += huge_value_streams()
         out.append(("empty_stream", b""))
         _BASE = out
